@@ -115,6 +115,7 @@ class Report:
         self.prove_wall = 0.0
         self.refute_wall = 0.0
         self.lemma_rows = []
+        self.libcheck = None
 
     def checker_error(self, msg):
         self.errors.append(msg)
@@ -131,6 +132,15 @@ class Report:
         lemmas = list(mod.lemmas(self.tier)) if hasattr(mod, 'lemmas') else []
         if not units and not lemmas:
             return
+        # assumed library contracts vs the real numpy (every run)
+        try:
+            from vf import libcheck
+            n_lib, lib_fails = libcheck.run()
+            self.libcheck = {'contracts_crosschecked': n_lib, 'failures': lib_fails, 'elements_determined': libcheck.STATS['determined'], 'elements_consistent_only': libcheck.STATS['consistent']}
+            if lib_fails:
+                self.checker_error('assumed library contract contradicts numpy: %s' % lib_fails[:3])
+        except Exception:
+            self.libcheck = {'error': traceback.format_exc(limit=2)}
         tl = TLIMIT[self.tier]
         procs = min(16, os.cpu_count() or 4)
         _UNITS, _REPO = units, self.repo
@@ -405,6 +415,7 @@ class Report:
             'undecided': [{'obligation': u, 'reason': str(w)[:300]} for u, w in undecided],
             'not_covered': list(getattr(mod, 'NOT_COVERED', [])),
             'canaries': {'path_conditions_probed': self.canaries[0], 'vacuous': self.canaries[1]},
+            'lib_axioms_crosschecked': self.libcheck,
             'prove_wall_s': round(self.prove_wall, 1),
             'explanation': ('All verification conditions generated on this run from the current source of the functions under contract were discharged.'
                             if proof_ok else 'Not every obligation was discharged on this run (see undecided / violations); the run is not counted as a proof.')
